@@ -520,6 +520,12 @@ func (m *machine) query(st step) {
 		}
 	}
 
+	if base != nil && isCircleObj(base) && nanBox(base) {
+		// the same garbage on the query side: CIRCLE lat lon r with lat + r/R = 90 degrees within rounding
+		c.Label("excluded:nan-circle-area")
+		return
+	}
+
 	want, total, skip := m.be.oracle(st.Pred, area, clipped)
 	if skip != "" {
 		// e.g. a clipped ring that degenerated to <4 positions does not re-parse
@@ -578,19 +584,26 @@ func (m *machine) query(st step) {
 			}
 		}
 	}
-	if m.nan {
-		// after a NaN box the whole index is suspect: every mismatch belongs to that finding
-		c.Label("shape:" + findingNaN)
-		for id := range want {
-			shapes[findingNaN][id] = true
+	// TEST evaluates garbage for a circle whose 64-gon has NaN vertices (inside
+	// the external geojson module; e.g. a polygon on the equator "intersects" a
+	// 2 km circle at the pole): such stored circle objects are taken out of the
+	// comparison. What must still hold - and is checked by everything else in
+	// the history - is that their presence does not disturb other objects.
+	for id, o := range m.live {
+		if isCircleObj(o) && nanBox(o) {
+			ignore[id] = true
+			delete(want, id)
 		}
+	}
+	if m.nan {
+		c.Label("excluded:nan-circle-object")
 	}
 	for _, fid := range allFindings {
 		if len(shapes[fid]) == 0 {
 			continue
 		}
 		if fid == findingNaN {
-			continue // excluded at generation time when known, see drawObject
+			continue
 		}
 		c.Label("shape:" + fid)
 		if ev.KnownActive(fid) {
@@ -651,6 +664,9 @@ func (m *machine) query(st step) {
 	}
 	if st.Sparse == 0 && len(lost) > 0 {
 		key := "lost-result:" + st.Pred
+		if m.nan {
+			key = findingNaN
+		}
 		for _, fid := range allFindings {
 			all := true
 			for _, id := range lost {
